@@ -136,9 +136,17 @@ def sb1(model):
         else:
             src = val
             if isinstance(src, ast.Name) and src.id == var:
-                # tok = copy.copy(tok) before
-                n_copy += 1
-                r.ok(x, 'body token emitted once', nontrivial=True)
+                # tok = copy.copy(tok) before, on every path
+                vals = T.resolve_local(model, src)
+                if vals and all(isinstance(v, ast.Call) and unparse(v.func) == 'copy.copy' and v.args
+                                and unparse(v.args[0]) == var for v in vals):
+                    n_copy += 1
+                    r.ok(x, 'copy of the body token emitted once', nontrivial=True)
+                else:
+                    n_copy += 1
+                    r.fail(x, 'on some path the stored body token itself is emitted, not a copy stamped '
+                           'with the position of this use: the text of a macro defined by another macro '
+                           'maps to the place of its definition', witness='\\newcommand{\\mk}[2]{\\newcommand{#1}{#2 (abbr.)}}\\mk{\\eg}{e.g.} ... \\eg')
             elif isinstance(src, ast.Call) and unparse(src.func) in ('copy.copy',) and unparse(src.args[0]) == var:
                 n_copy += 1
                 r.ok(x, 'copy of the body token emitted once', nontrivial=True)
